@@ -8,6 +8,10 @@ import (
 
 	"metacontroller/pkg/controller/common"
 	vs "metacontroller/pkg/internal/verifsim"
+	"metacontroller/pkg/logging"
+
+	"github.com/go-logr/logr"
+	"github.com/go-logr/logr/funcr"
 )
 
 // Env is a world plus one controller and its scenario.
@@ -310,3 +314,13 @@ func (e *Env) DesiredFromTrace(t *SyncTrace) ([]map[string]any, bool) {
 }
 
 func stackNow() string { return string(debug.Stack()) }
+
+// SetVerboseLogging switches metacontroller's package-level logger between "discard" and a
+// sink that is enabled at every verbosity (so that V(5) debug paths run) and drops the output.
+func SetVerboseLogging(on bool) {
+	if on {
+		logging.Logger = funcr.New(func(prefix, args string) {}, funcr.Options{Verbosity: 10})
+	} else {
+		logging.Logger = logr.Discard()
+	}
+}
